@@ -965,3 +965,82 @@ def inline_value(module, callee, args):
         _INLINE_CACHE[key] = val
     v = _INLINE_CACHE[key]
     return subst_args(v, args) if v is not None else None
+
+
+_PURE_PATHS = {}
+
+
+def eval_pure_call(module, name, vals):
+    """Value returned by a module-local function without memory effects on concrete arguments (unsigned ints): the unique
+    path whose conditions hold is selected and its return expression evaluated.  Raises NoValue if that is not possible."""
+    key = (id(module), name)
+    if key not in _PURE_PATHS:
+        _PURE_PATHS[key] = enumerate_paths(module.functions[name], module)
+    fn = module.functions[name]
+    env = {}
+    for k, v in enumerate(vals):
+        bits = int_bits_of(fn.args[k].ty)
+        env[("arg", k)] = v & mask(bits) if bits else v
+    hits = []
+    for q in _PURE_PATHS[key]:
+        try:
+            if all(cond_holds(cd, env) for cd in q.conds):
+                hits.append(q)
+        except NoValue:
+            raise
+    if len(hits) != 1 or hits[0].ret is None:
+        raise NoValue(("call", name))
+    return eval_concrete(hits[0].ret, env)
+
+
+def int_bits_of(ty):
+    if ty.startswith("i") and ty[1:].isdigit():
+        return int(ty[1:])
+    return None
+
+
+def const_table(m, name):
+    """(element values, element width) of a constant integer array global, or None."""
+    import re
+    g = m.globals.get(name)
+    if not g or not g.get("const") or "init" not in g:
+        return None
+    init = g["init"]
+    mt = re.match(r"\[(\d+) x i(\d+)\]", init.get("ty", ""))
+    if not mt:
+        return None
+    n, w = int(mt.group(1)), int(mt.group(2))
+    if init["k"] == "zero":
+        return [0] * n, w
+    if init["k"] == "cdata":
+        return [int(x) & ((1 << w) - 1) for x in init["elems"]], w
+    if init["k"] == "cagg" and all(e.get("k") == "int" for e in init["elems"]):
+        return [int(e["v"]) & ((1 << w) - 1) for e in init["elems"]], w
+    return None
+
+
+def const_table_load(m, x, env):
+    """Value of a load from a constant integer table with a concretely evaluable subscript; None if x is not such a load;
+    raises NoValue if the subscript is out of range."""
+    if x[0] != "ld":
+        return None
+    root, off, var = ptr_parts(x[1])
+    if root[0] != "g" or len(var) > 1:
+        return None
+    t = const_table(m, root[1])
+    if t is None:
+        return None
+    vals, w = t
+    esz = w // 8
+    idx = off
+    if var:
+        if var[0][1] != esz:
+            return None
+        i = eval_concrete(var[0][0], env)
+        bits = expr_bits(var[0][0]) or 64
+        if i >> (bits - 1):
+            i -= 1 << bits
+        idx += i * esz
+    if idx % esz or not (0 <= idx // esz < len(vals)):
+        raise NoValue(x)
+    return vals[idx // esz]
